@@ -38,6 +38,10 @@ CHECKS = {
    technique="bounded exhaustive enumeration of (query x schema variant x DpParameters) through every pipeline stage of the real compiler, each case in a supervised child process (panic / abort / timeout attributed to the case)",
    text="Every E-sql query, every name-clash query and one probe per SQL construct the fragment does not claim (about 110) is pushed, for each schema variant (standard, unbounded, zero-containing ranges, i64/f64 extremes; thorough adds zero-width, 129-interval sets, empty value sets, all-nullable), through parse -> relation -> schema -> render -> privacy-unit rewriting (both strategies) -> DP rewriting under several DpParameters including zero budgets. Each stage must end Ok or Err: a panic (caught), an abort or a stall of the child process is a violation attributed to the case. Accepted unsupported constructs must still read every table they name and agree with SQLite on every small database.",
    note="Trusted: the supervisor (per-case wall clock 20/40 s stands for non-termination). Panic signatures are per query, stage and panic site (file + message, no line number)."),
+ "C17": dict(level="translation_validation", design="2/C17",
+   technique="translation validation over enumerated programs x 8 translators: sqlparser's dialect parsers as acceptance oracle, the library's own dialect readers for read-back, in-process SQLite for the one executable dialect",
+   text="Every compiled E-sql relation (quick: every second one) and the DP rewriting of every aggregate query, plus identifiers with spaces, reserved words and quotes, is rendered by each of the eight translators; the text must be accepted by sqlparser's parser for that dialect as exactly one query; for the seven reading translators the read-back relation must have the same column names, order and types; the SQLite rendering must execute on SQLite with the results of the PostgreSQL rendering.",
+   note="Acceptance is judged by sqlparser's dialect parsers, not by the real engines. The 'same results' clause is decided for SQLite only; it is NOT decided for the other seven dialects (no engine offline). Signatures are per dialect, failure class and query feature tags."),
 }
 NOT_YET = {}
 def main():
